@@ -735,3 +735,40 @@ Proof.
     split; [|split; congruence].
     destruct Same' as (A & B & C & D), Same2 as (A' & B' & C' & D'). cbn [fst snd] in *. repeat split; cbn [fst snd]; congruence.
 Qed.
+
+(** ** instruction objects shared by the cases of a suite *)
+
+(** If the suite's instruction objects behave as functions of what the case lets them see — their
+    behaviour does not depend on anything they remember — the run is a run of independent cases. *)
+Theorem stateless_suite_objects_independent {R M} ec (cases : list (shared_case R M)) (m0 : M) : forall m cw st,
+  (forall c, In c cases -> forall m', shc_sem c m' = shc_sem c m0) ->
+  snd (fst (run_cases_shared real_policy false ec cases m (cw, st))) =
+  snd (run_cases real_policy false ec (map (fun c => shc_sem c m0) cases) (cw, st)).
+Proof.
+  induction cases as [|c cs IH]; intros m cw st H; [reflexivity|].
+  cbn [run_cases_shared run_cases map]. rewrite (H c (or_introl eq_refl) m).
+  destruct (run_case real_policy false ec (shc_sem c m0) (cw, st)) as [[cw' st'] o].
+  specialize (IH (shc_remember c m o) cw' st' (fun c' Hc => H c' (or_intror Hc))).
+  destruct (run_cases_shared real_policy false ec cs (shc_remember c m o) (cw', st')) as [[s' os] m'].
+  destruct (run_cases real_policy false ec (map (fun c0 => shc_sem c0 m0) cs) (cw', st')) as [s'' os'].
+  cbn [fst snd] in *. rewrite IH. reflexivity.
+Qed.
+
+(** A suite instruction that CACHES the value it resolved a symbol to (the case [i] defines symbol 8
+    with value [i]; the instruction's verdict is the value it believes the symbol has). *)
+Definition caching_case (i : nat) : shared_case nat (option nat) :=
+  SHC (fun m => CS (fun _ => (inr tt, [MSymPut 8 i]))
+                   (fun _ => (match m with Some x => x | None => i end, [MSymPut 8 i])))
+      (fun m o => match m with
+                  | Some _ => m
+                  | None => match o_end2 o with Some v => env_get 8 (v_syms v) | None => None end
+                  end).
+Definition honest_case (i : nat) : shared_case nat (option nat) :=
+  SHC (fun _ => shc_sem (caching_case i) None) (fun m _ => m).
+
+(** With such an object independence is false: the second case is judged by the first case's value. *)
+Theorem independence_with_caching_suite_objects_refuted :
+  exists (cases : list (shared_case nat (option nat))) c,
+    nth_error (map (@o_result nat) (snd (fst (run_cases_shared real_policy false shared_conf (cases ++ [c]) None (start_world, start_store))))) (length cases)
+    <> nth_error (map (@o_result nat) (snd (fst (run_cases_shared real_policy false shared_conf [c] None (start_world, start_store))))) 0.
+Proof. exists [caching_case 1], (caching_case 2). vm_compute. discriminate. Qed.
